@@ -36,6 +36,20 @@ macro_rules! plain_cmp_routes {
     };
 }
 const PLAIN_CMP_ROUTES: u64 = 6;
+const PLAIN_CMP_NAMES: [&str; 6] = ["f cmpeq", "f cmpne", "i32 cmplt", "f64 is_nan_mask", "u8 cmpge", "f cmple, false lanes NaN"];
+const A4_CMP_NAMES: [&str; 7] = ["Vec4 cmpeq", "Vec4 cmpne", "Vec4 cmplt, false lanes NaN", "Vec4 is_nan_mask", "Vec4 cmpge inf", "Vec4 cmple, false lanes NaN", "Vec4 is_finite_mask"];
+const A3_CMP_NAMES: [&str; 10] = [
+    "Vec3A cmpeq, hidden lane false",
+    "Vec3A cmpeq, hidden lane true",
+    "Vec3A cmplt, false lanes and hidden lane NaN",
+    "Vec3A is_nan_mask, hidden lane NaN",
+    "Vec3A cmpne, hidden lane false",
+    "Vec3A cmpne, hidden lane NaN (true)",
+    "Vec3A cmpge inf, hidden lane false",
+    "Vec3A cmpge inf, hidden lane true",
+    "Vec3A is_finite_mask, hidden lane NaN",
+    "Vec3A cmple, false lanes NaN, hidden lane true",
+];
 plain_cmp_routes!(cmp_bvec2, BVec2, 2, Vec2, f32, IVec2, DVec2, U8Vec2);
 plain_cmp_routes!(cmp_bvec3, BVec3, 3, Vec3, f32, IVec3, DVec3, U8Vec3);
 plain_cmp_routes!(cmp_bvec4, BVec4, 4, DVec4, f64, IVec4, DVec4, U8Vec4);
@@ -130,7 +144,7 @@ macro_rules! observe {
 }
 
 macro_rules! mask_type {
-    ($m:ident, $M:ident, $P:ident, $N:expr, $ctor:ident, ($($i:expr),*), $cmp:ident, $KC:expr, $raw:ident) => {
+    ($m:ident, $M:ident, $P:ident, $N:expr, $ctor:ident, ($($i:expr),*), $cmp:ident, $KC:expr, $names:ident, $raw:ident) => {
         pub mod $m {
             use super::*;
             pub type M = $M;
@@ -176,7 +190,7 @@ macro_rules! mask_type {
                     10 => "((new|FALSE)&TRUE)^FALSE".into(),
                     11 => "!new(!bits)|new(bits)".into(),
                     12 => "new^!FALSE^TRUE".into(),
-                    k => format!("compare#{}", k - BASE_ROUTES),
+                    k => format!("compare#{}: {}", k - BASE_ROUTES, $names.get((k - BASE_ROUTES) as usize).copied().unwrap_or("?")),
                 }
             }
 
@@ -531,11 +545,11 @@ macro_rules! mask_type {
     };
 }
 
-mask_type!(mbvec2, BVec2, BVec2, 2, bvec2, (0, 1), cmp_bvec2, PLAIN_CMP_ROUTES, raw_none);
-mask_type!(mbvec3, BVec3, BVec3, 3, bvec3, (0, 1, 2), cmp_bvec3, PLAIN_CMP_ROUTES, raw_none);
-mask_type!(mbvec4, BVec4, BVec4, 4, bvec4, (0, 1, 2, 3), cmp_bvec4, PLAIN_CMP_ROUTES, raw_none);
-mask_type!(mbvec3a, BVec3A, BVec3, 3, bvec3a, (0, 1, 2), cmp_bvec3a, A3_CMP_ROUTES, raw3a);
-mask_type!(mbvec4a, BVec4A, BVec4, 4, bvec4a, (0, 1, 2, 3), cmp_bvec4a, A4_CMP_ROUTES, raw4a);
+mask_type!(mbvec2, BVec2, BVec2, 2, bvec2, (0, 1), cmp_bvec2, PLAIN_CMP_ROUTES, PLAIN_CMP_NAMES, raw_none);
+mask_type!(mbvec3, BVec3, BVec3, 3, bvec3, (0, 1, 2), cmp_bvec3, PLAIN_CMP_ROUTES, PLAIN_CMP_NAMES, raw_none);
+mask_type!(mbvec4, BVec4, BVec4, 4, bvec4, (0, 1, 2, 3), cmp_bvec4, PLAIN_CMP_ROUTES, PLAIN_CMP_NAMES, raw_none);
+mask_type!(mbvec3a, BVec3A, BVec3, 3, bvec3a, (0, 1, 2), cmp_bvec3a, A3_CMP_ROUTES, A3_CMP_NAMES, raw3a);
+mask_type!(mbvec4a, BVec4A, BVec4, 4, bvec4a, (0, 1, 2, 3), cmp_bvec4a, A4_CMP_ROUTES, A4_CMP_NAMES, raw4a);
 
 // ------------------------------------------------------------------------------------------------
 // comparisons and select on the numeric vector types
